@@ -90,6 +90,10 @@ def main():
     if ga["outcome"] != "ok" or gb["outcome"] != "ok":
         if a.get("both_refused_ok") and ga["outcome"] != "ok" and gb["outcome"] != "ok":
             acc.add("both executions refused consistently", cls, 0.0 if ga.get("exc_type") == gb.get("exc_type") else 1.0, 0, sig="%s vs %s" % (ga.get("exc_type"), gb.get("exc_type")))
+        elif ga["outcome"] != gb["outcome"] and a.get("refusal_not_comparable"):
+            # the property compares two grids: where one of the two could not be built there is
+            # nothing to compare (reported, and the coverage requirement sees no comparison)
+            acc.add("informational: one of the two builds was refused, nothing to compare", cls + "|not comparable", 0.0, 0, sig="%s: %s / %s: %s %s" % (A.get("tag"), ga["outcome"], B.get("tag"), gb["outcome"], (ga.get("exc_msg") or gb.get("exc_msg") or "")[:120]))
         elif ga["outcome"] != gb["outcome"]:
             acc.add("both executions have the same outcome", cls, 1.0, 0, sig="%s: %s / %s: %s %s" % (A.get("tag"), ga["outcome"], B.get("tag"), gb["outcome"], (ga.get("exc_msg") or gb.get("exc_msg") or "")[:120]))
         else:
